@@ -232,6 +232,42 @@ def derive_scratch(index: Index):
     return scratch, rb, n
 
 
+def _lookup_or_compute(fnode, name):
+    """every store `self.<name> = ...` sits under an `if` whose test looks at the current value of the attribute (directly, through
+    __dict__ / getattr, or through a local bound from it), and the attribute is never written in place: a memo that is either
+    reused or recomputed - not a buffer that is overwritten, not a counter, not a flag set unconditionally."""
+    mentions = lambda e: any((isinstance(n, ast.Attribute) and n.attr == name) or (isinstance(n, ast.Constant) and n.value == name) for n in ast.walk(e))
+    locals_from = {t.id for n in ast.walk(fnode) if isinstance(n, ast.Assign) and mentions(n.value) for t in n.targets if isinstance(t, ast.Name)}
+    looks = lambda e: mentions(e) or any(isinstance(n, ast.Name) and n.id in locals_from for n in ast.walk(e))
+    parents = {}
+    for p_ in ast.walk(fnode):
+        for c_ in ast.iter_child_nodes(p_):
+            parents[c_] = p_
+    stores = [n for n in ast.walk(fnode) if isinstance(n, ast.Assign)
+              and any(isinstance(t, ast.Attribute) and t.attr == name and isinstance(t.value, ast.Name) and t.value.id == "self" for t in n.targets)]
+    if not stores:
+        return False
+    for n in ast.walk(fnode):
+        # in-place writes into the attribute
+        if isinstance(n, (ast.AugAssign,)) and mentions(n.target):
+            return False
+        if isinstance(n, ast.Assign) and any(isinstance(t, ast.Subscript) and mentions(t.value) for t in n.targets):
+            return False
+    for st_ in stores:
+        if isinstance(st_.value, ast.Constant) and st_.value.value is None:
+            continue
+        p_ = parents.get(st_)
+        guarded = False
+        while p_ is not None and p_ is not fnode:
+            if isinstance(p_, ast.If) and looks(p_.test):
+                guarded = True
+                break
+            p_ = parents.get(p_)
+        if not guarded:
+            return False
+    return True
+
+
 def accessor_private_attrs(index: Index):
     """Attributes every access of which (self._x, self.__dict__["_x"], self.__dict__.get("_x"), getattr(self, "_x")) sits in ONE
     function and which the tables do not know: a memo private to its accessor.  The rest of the program only ever sees what
@@ -255,14 +291,18 @@ def accessor_private_attrs(index: Index):
                     name = n.value          # a string key of __dict__ / getattr / setattr
                 if name is not None:
                     where.setdefault(name, set()).add((cls.name, f.name, id(f.node)))
+    fn_by_id = {}
+    for cls in index.shape_classes():
+        for f in list(cls.methods.values()) + [x for p in cls.props.values() for x in (p.getter, p.setter) if x]:
+            fn_by_id[id(f.node)] = f.node
     out = set()
     for name, sites in where.items():
         if name in ATTR or name in PRIMARY or name in CACHE_PARTS:
             continue
         if len({s[2] for s in sites}) == 1:
-            # it must really be an instance attribute: stored somewhere through self
-            cname, fname, _ = next(iter(sites))
-            out.add(name)
+            fnode = fn_by_id.get(next(iter(sites))[2])
+            if fnode is not None and _lookup_or_compute(fnode, name):
+                out.add(name)
     # keep only names that are stored as attributes (not arbitrary string constants)
     stored = set()
     for cls in index.shape_classes():
